@@ -86,6 +86,19 @@ def twins(tier, seed):
                                      ([(N - 2, N - 1), (N - 8, N - 1)], [(N - 2, N - 1), (N - 8, N + 7)], "overlapping list whose last (lower-start) range passes bit N-1"),
                                      ([(N - 4, N - 1), (N - 4, N - 3)], [(N - 4, N + 3), (N - 4, N - 3)], "overlapping list, equal starts, the longer range passes bit N-1")):
                 add(_case("x", N, [uint_field("x", pa)]), _case("x", N, [uint_field("x", na)]), "beyond-base-width", "%s, %s" % (shape_, "native base" if N in NATIVE else "arbitrary-int base"), "list")
+        # --- the same for fields with other access specifiers: the position rules do not depend on which accessors are generated ---
+        for acc in ("", "r", "w"):
+            aname = acc or "none"
+            for b in sorted({N, S + 8}):
+                if b > 200:
+                    continue
+                add(_case("x", N, [bool_field("x", N - 1, access=acc)]), _case("x", N, [bool_field("x", b, access=acc)]), "beyond-base-width",
+                    "scalar bool at bit >= base width, access '%s', %s" % (aname, "native base" if N in NATIVE else "arbitrary-int base"), "bool")
+            if N >= 8:
+                add(_case("x", N, [uint_field("x", [(N - 8, N - 1)], access=acc)]), _case("x", N, [uint_field("x", [(N, N + 7)], access=acc)]), "beyond-base-width",
+                    "scalar u8 entirely above bit N-1, access '%s', %s" % (aname, "native base" if N in NATIVE else "arbitrary-int base"), "uint")
+                add(_case("x", N, [uint_field("x", [(N - 4, N - 3)], array=arr(2, 2), access=acc)]), _case("x", N, [uint_field("x", [(N - 2, N - 1)], array=arr(2, 2), access=acc)]), "beyond-base-width",
+                    "u2 array whose last element passes bit N-1, access '%s', %s" % (aname, "native base" if N in NATIVE else "arbitrary-int base"), "array")
         # --- arrays whose last element passes bit N-1 ---
         for (w, K) in ((1, 2), (2, 2), (2, 3), (4, 2), (8, 2)):
             if K * w > N:
@@ -197,6 +210,11 @@ def twins(tier, seed):
             for K in (0, 1):
                 neg = dict(pos, array=arr(K, None, 4))
                 add(_case("x", N, [pos]), _case("x", N, [neg]), "array-count<2", "array with %d element(s), %s" % (K, bc), "array")
+            posl = uint_field("x", [(0, 1), (4, 5)], array=arr(2, 2))
+            for K in (0, 1):
+                add(_case("x", N, [posl]), _case("x", N, [dict(posl, array=arr(K, 2))]), "array-count<2", "list array with %d element(s), %s" % (K, bc), "list-array")
+            posb = bool_field("x", 0, array=arr(2, None, 1))
+            add(_case("x", N, [posb]), _case("x", N, [dict(posb, array=arr(1, None, 1))]), "array-count<2", "bool array with 1 element, %s" % bc, "array")
             pos = uint_field("x", [(0, 3)], array=arr(2, 4))
             neg = dict(pos, array=arr(2, 3))
             add(_case("x", N, [pos]), _case("x", N, [neg]), "stride<width", "stride one below the element width, %s" % bc, "array")
@@ -361,6 +379,46 @@ def enum_twins(tier, seed):
                     e["variants"][pos_] = dict(e["variants"][pos_], pre_attrs=["/// documented variant"])
                     return e
                 add(mk2("conditional"), mk2("true"), "cfg-without-conditional", "exhaustive = true with a compiled-out, documented cfg variant at position %d" % pos_)
+    # exactly 2^N variants of which one is v + 64 / v + 128 / v + 256 / v + 2^32 instead of v (bitmaps and narrowed integers alias it onto v)
+    for n in (1, 2, 3, 4, 6, 8):
+        space = 1 << n
+        full = list(range(space))
+        for v in sorted({0, space - 1, space // 2}):
+            for off in (64, 128, 256, 1 << 32):
+                if v + off < space:
+                    continue
+                ds = [d if d != v else v + off for d in full]
+                add(make_enum("E", n, full, "true"), make_enum("E", n, ds, "true"), "discriminant>=2^N", "2^N variants, value %s replaced by itself + %d, exhaustive = true" % ("0" if v == 0 else ("2^N-1" if v == space - 1 else "2^(N-1)"), off))
+                if n <= 3:
+                    add(make_enum("E", n, [d for d in full if d != (v + 1) % space] or [0], "false"), make_enum("E", n, [d for d in ds if d != (v + 1) % space] or [off], "false"), "discriminant>=2^N",
+                        "2^N-1 variants, one of them itself + %d, exhaustive = false" % off) if space > 1 else None
+    # cfg-gated variant without `conditional` in a list that is not ascending (descending, and a peak first)
+    for n in (2, 3, 8, 12):
+        space = 1 << n
+        for order, oname in (([3, 2, 1, 0], "descending"), ([space - 1, 0, 2, 1], "largest first"), ([1, 3, 0, 2], "mixed")):
+            for pos_ in range(4):
+                for exh in ("false", None, "true"):
+                    if exh == "true" and space != 4:
+                        continue
+                    cfgs = [True if k == pos_ else None for k in range(4)]
+                    negE = make_enum("E", n, order, exh, cfg=cfgs)
+                    posE = make_enum("E", n, order, "conditional", cfg=cfgs)
+                    add(posE, negE, "cfg-without-conditional", "cfg on variant %d of 4 in %s order, exhaustive %s" % (pos_, oname, exh or "omitted"))
+    # too-large discriminants spelled with digit separators / radix prefixes whose leading digits alone would fit
+    for n, texts in ((4, ("0b1_0000", "1_6", "0x1_0", "0o2_0")), (3, ("1_0", "0b1_000", "0x0_8")), (2, ("0x0_4", "0_4", "0b1_00")), (8, ("2_56", "0x1_00", "0b1_0000_0000")), (12, ("4_096", "0x1_000"))):
+        space = 1 << n
+        for text in texts:
+            val = int(text.replace("_", ""), 0) if not text.startswith("0_") else int(text.replace("_", ""))
+            assert val >= space, (n, text)
+            posE = make_enum("E", n, [0, space - 1], "false")
+            negE = make_enum("E", n, [0, val], "false")
+            negE["variants"][1] = dict(negE["variants"][1], discr_text=" = %s" % text)
+            add(posE, negE, "discriminant>=2^N", "discriminant %s (>= 2^N) written with digit separators, exhaustive = false" % text)
+            if n <= 3:
+                full = list(range(space))
+                negE = make_enum("E", n, full[:-1] + [val], "true")
+                negE["variants"][-1] = dict(negE["variants"][-1], discr_text=" = %s" % text)
+                add(make_enum("E", n, full, "true"), negE, "discriminant>=2^N", "2^N variants, the last one %s (>= 2^N) written with digit separators, exhaustive = true" % text)
     # conditional enums listing more than 2^N variants: an out-of-range discriminant beyond index 2^N-1
     for n in (1, 2, 3):
         space = 1 << n
